@@ -147,26 +147,21 @@ func (r *crashRun) ceremony(outDir string, n, t, obsIdx int, crashAt []int, repo
 			moved := 0
 			for _, nd := range c.nodes {
 				if nd == obs {
-					// the observed node's poll, message by message, so that the context is known
+					// the observed node's poll: its own tick (the hook VerifTick), one message at a time so that the context is known
 				repoll:
-					off, err := obs.st.LoadOffset()
-					if err != nil {
-						restartIfDead()
-						continue
-					}
-					msgs, err := obs.stg.GetMessages(off)
-					if err != nil {
-						continue
-					}
-					for _, m := range msgs {
-						if m.RecipientAddr == "" || m.RecipientAddr == obs.name {
-							k.context = "ProcessMessage(" + m.Event + ")"
-							obs.svc.ProcessMessage(m)
+					for guard := 0; guard < 200; guard++ {
+						// which message is next (looked up past the hooks: this is the driver asking, not the node)
+						off, err := obs.st.inner.LoadOffset()
+						if err != nil {
+							restartIfDead()
+							break
 						}
-						if !k.dead {
-							k.context = "Poll after " + m.Event
-							obs.st.SaveOffset(m.Offset + 1)
+						msgs, err := obs.stg.inner.GetMessages(off)
+						if err != nil || len(msgs) == 0 {
+							break
 						}
+						k.context = "tick(" + msgs[0].Event + ")"
+						c.pollOnce(obs, 1)
 						moved++
 						if k.dead {
 							restartIfDead()
